@@ -348,6 +348,18 @@ class SqliteHistory(History):
             XSH.env["XONSH_HISTORY_FILENAME"] = filename
         self.filename = filename
         self.last_pull_times = {None: time.time()}
+        # Create the table (and switch a new database to WAL) before the GC
+        # thread exists: two connections doing that at the same time collide
+        # with "database is locked" and the first command would be dropped.
+        is_new = not os.path.exists(self.filename)
+        setattr(XH_SQLITE_CACHE, XH_SQLITE_CREATED_SQL_TBL, False)
+        with _xh_sqlite_get_conn(filename=self.filename) as conn:
+            _xh_sqlite_create_history_table(conn.cursor())
+        if is_new:
+            try:
+                os.chmod(self.filename, 0o600)
+            except Exception:  # pylint: disable=broad-except
+                pass
         self.gc = SqliteHistoryGC(filename=filename) if gc else None
         self._last_hist_inp = None
         self.inps = []
@@ -360,15 +372,6 @@ class SqliteHistory(History):
             if save_cwd is not None
             else XSH.env.get("XONSH_HISTORY_SAVE_CWD", True)
         )
-
-        if not os.path.exists(self.filename):
-            with _xh_sqlite_get_conn(filename=self.filename) as conn:
-                if conn:
-                    pass
-            try:
-                os.chmod(self.filename, 0o600)
-            except Exception:  # pylint: disable=broad-except
-                pass
 
         # during init rerun create command
         setattr(XH_SQLITE_CACHE, XH_SQLITE_CREATED_SQL_TBL, False)
